@@ -198,6 +198,9 @@ func C09(p *load.Prog, r *oblig.Run) {
 	r.Assumptions = e4Assumptions()
 	r.Rule("R09.a", "the merge result is built from fresh nodes all the way down", 2)
 	r.Rule("R09.b", "merging performs no structural write on either input", 2)
+	// which children are merged is decided by the Equals methods: a value used while its error is thrown away there
+	// (every malformed identifier becomes the same empty one) merges nodes that are not equal (C10's R10.b)
+	defer c10Errors(p, r)
 	c09TypedNil(p, r)
 	c09Accounts(p, r)
 	// merging matches children with Equals (C07's pair-search rules) and is built from deep copies
@@ -351,6 +354,10 @@ func C07(p *load.Prog, r *oblig.Run) {
 	c07EqualShortcuts(p, r)
 	c07ListEquality(p, r)
 	c07PairSearch(p, r)
+	// a copy is made through the kind registry (newNode): it serialises identically only if every kind's constructor
+	// passes value and pointer through unchanged (C01's registry rule)
+	r.Rule("R01.c", "tag -> specialised kind registry agrees with the tag each kind's constructor hard-wires; value and pointer are passed through", 27)
+	c01Registry(p, r)
 	c07CopyWalksAll(p, r)
 	c07CopyThroughFilter(p, r)
 	c07Bookkeeping(p, r)
@@ -767,6 +774,10 @@ func c07EqualShortcuts(p *load.Prog, r *oblig.Run) {
 				continue
 			}
 			outcome := path[i+1] == b.Succs[0]
+			if lenEqOnEdge(p, iff.Cond, outcome, "len(invoke.Nodes(p0))", "len(invoke.Nodes(p1))") {
+				compared = true // also through a boolean helper such as sameLength(left, right)
+				continue
+			}
 			bo, ok := iff.Cond.(*ssa.BinOp)
 			if !ok || (bo.Op != token.EQL && bo.Op != token.NEQ) {
 				continue
@@ -833,6 +844,10 @@ func lengthsComparedBeforeTrue(p *load.Prog, g *ssa.Function) bool {
 			if !ok {
 				continue
 			}
+			if lenEqOnEdge(p, iff.Cond, path[i+1] == b.Succs[0], "len(p0)", "len(p1)") {
+				compared = true
+				continue
+			}
 			bo, ok := iff.Cond.(*ssa.BinOp)
 			if !ok || (bo.Op != token.EQL && bo.Op != token.NEQ) {
 				continue
@@ -885,4 +900,16 @@ func c07ListEquality(p *load.Prog, r *oblig.Run) {
 	default:
 		o.OK(fmt.Sprintf("the lengths are compared in front of all %d call sites", n))
 	}
+}
+
+// lenEqOnEdge: the branch outcome establishes that the two lengths are equal, directly or through a boolean helper
+// of the library (facts common to the helper's returns of that outcome, parameters replaced by the arguments).
+func lenEqOnEdge(p *load.Prog, cond ssa.Value, outcome bool, a, b string) bool {
+	env := &descEnv{p: p, params: map[*ssa.Parameter]string{}}
+	for _, f := range env.condFacts(cond, outcome, 0) {
+		if f.val && (f.atom == a+"=="+b || f.atom == b+"=="+a) {
+			return true
+		}
+	}
+	return false
 }
